@@ -26,7 +26,8 @@ def inject_dangling(rng, ast):
     items = list(gen_graph.flat_items(a))
     used = {r[0] for it in items for r in it['rings']}
     it = rng.choice(items)
-    rid = rng.choice([i for i in list(range(1, 10)) + [10, 12, 99] if i not in used])
+    # ring index 0 ('0', '%00') is an index like any other
+    rid = rng.choice([i for i in [0, 0] + list(range(1, 10)) + [10, 12, 99] if i not in used])
     it['rings'].append([rid, rng.choice([1, 1, 2]), True])
     it['mult'] = 1
     return a
